@@ -29,6 +29,7 @@ pub fn c11(ctx: &mut Ctx, tier: &str, seed: u64) {
             let n = normalize_b(win, s);
             let cn = comps(win, &n);
             let rp = format!("norm {} {}", e, hex(s));
+            at(rp.clone());
             let dots = cs.iter().filter(|c| matches!(c, SComp::Cur | SComp::Parent)).count();
             ctx.case(dots > 0 && cs.len() >= 2, (win, s));
             ctx.tally(&format!("{}:dots={}", e, dots.min(4)));
@@ -106,6 +107,7 @@ pub fn c12(ctx: &mut Ctx, tier: &str, seed: u64) {
         for s in &dom {
             let cs = comps(win, s);
             let rp = format!("fname {} {}", e, hex(s));
+            at(rp.clone());
             let (f, st, ex): (Option<Vec<u8>>, Option<Vec<u8>>, Option<Vec<u8>>) = if win {
                 let p = WindowsPath::new(s);
                 (p.file_name().map(|x| x.to_vec()), p.file_stem().map(|x| x.to_vec()), p.extension().map(|x| x.to_vec()))
@@ -119,6 +121,19 @@ pub fn c12(ctx: &mut Ctx, tier: &str, seed: u64) {
             };
             ctx.case(want.as_ref().map(|n| n.contains(&b'.')).unwrap_or(false), (win, s));
             ctx.tally(&format!("{}:{}", e, match (&want, &ex) { (None, _) => "no-file-name", (Some(_), None) => "no-extension", (Some(_), Some(_)) => "extension" }));
+            // the UTF-8 copies of the three queries (their own rsplit_file_at_dot) must agree
+            if let Ok(st8) = std::str::from_utf8(s) {
+                let (uf, us, ue): (Option<Vec<u8>>, Option<Vec<u8>>, Option<Vec<u8>>) = if win {
+                    let p = Utf8WindowsPath::new(st8);
+                    (p.file_name().map(|x| x.as_bytes().to_vec()), p.file_stem().map(|x| x.as_bytes().to_vec()), p.extension().map(|x| x.as_bytes().to_vec()))
+                } else {
+                    let p = Utf8UnixPath::new(st8);
+                    (p.file_name().map(|x| x.as_bytes().to_vec()), p.file_stem().map(|x| x.as_bytes().to_vec()), p.extension().map(|x| x.as_bytes().to_vec()))
+                };
+                if uf != f || us != st || ue != ex {
+                    ctx.fail("utf8-file_name-stem-extension-agree", None, rp.clone(), format!("utf8 stem {:?} ext {:?}; bytes stem {:?} ext {:?}", us.as_ref().map(|x| lossy(x)), ue.as_ref().map(|x| lossy(x)), st.as_ref().map(|x| lossy(x)), ex.as_ref().map(|x| lossy(x))));
+                }
+            }
             if f != want {
                 ctx.fail("file_name-is-last-normal", None, rp.clone(), format!("{:?} want {:?}", f.as_ref().map(|x| lossy(x)), want.as_ref().map(|x| lossy(x))));
                 continue;
@@ -154,6 +169,7 @@ pub fn c12(ctx: &mut Ctx, tier: &str, seed: u64) {
             let oldp = parent_b(win, b);
             for n in &names {
                 let rp = format!("setfn {} {} {}", e, hex(b), hex(n));
+                at(rp.clone());
                 let r: Vec<u8> = if win {
                     let mut x = WindowsPathBuf::from(b.as_slice());
                     x.set_file_name(n);
@@ -168,6 +184,20 @@ pub fn c12(ctx: &mut Ctx, tier: &str, seed: u64) {
                 let class = if k3_shape(win, b) || oldp.as_ref().map(|p| k3_shape(win, p)).unwrap_or(false) { Some("K3") } else { None };
                 if wfn != r {
                     ctx.fail("with_file_name-equals-set_file_name", None, rp.clone(), String::new());
+                }
+                if let (Ok(sb), Ok(sn)) = (std::str::from_utf8(b), std::str::from_utf8(n)) {
+                    let ur: Vec<u8> = if win {
+                        let mut x = Utf8WindowsPathBuf::from(sb);
+                        x.set_file_name(sn);
+                        x.into_string().into_bytes()
+                    } else {
+                        let mut x = Utf8UnixPathBuf::from(sb);
+                        x.set_file_name(sn);
+                        x.into_string().into_bytes()
+                    };
+                    if ur != r {
+                        ctx.fail("utf8-set_file_name-agrees", None, rp.clone(), format!("utf8 \"{}\" bytes \"{}\"", lossy(&ur), lossy(&r)));
+                    }
                 }
                 if file_name_b(win, &r).as_ref() != Some(n) {
                     ctx.fail("new-file-name-is-n", class, rp.clone(), format!("result \"{}\"", lossy(&r)));
@@ -227,7 +257,8 @@ pub fn c13(ctx: &mut Ctx, tier: &str, seed: u64) {
                     continue;
                 }
                 let rp = format!("setext {} {} {}", e, hex(s), hex(x));
-                let res = std::panic::catch_unwind(|| set_ext_b(win, s, x));
+                at(rp.clone());
+                let res = crate::util::quiet_catch(|| set_ext_b(win, s, x));
                 ctx.case(f.is_some() && s.last().map(|b| is_sep(win, *b) || *b == b'.').unwrap_or(false), (win, s, x));
                 ctx.tally(&format!("{}:{}", e, if f.is_some() { "file-name" } else { "no-file-name" }));
                 let (r, ok) = match res {
@@ -286,7 +317,7 @@ pub fn c13(ctx: &mut Ctx, tier: &str, seed: u64) {
                     ctx.fail("with_extension-equals-set_extension", None, rp.clone(), String::new());
                 }
                 if let (Ok(ss), Ok(sx)) = (std::str::from_utf8(s), std::str::from_utf8(x)) {
-                    let ur = std::panic::catch_unwind(|| {
+                    let ur = crate::util::quiet_catch(|| {
                         if win {
                             let mut b = Utf8WindowsPathBuf::from(ss);
                             let k = b.set_extension(sx);
@@ -369,6 +400,7 @@ pub fn c16(ctx: &mut Ctx, tier: &str, seed: u64) {
             let dst_win = !src_win;
             let de = gen::e(dst_win);
             let rp = format!("conv {} {} {}", se, de, hex(s));
+            at(rp.clone());
             let conv: Vec<u8> = if src_win { WindowsPath::new(s).with_unix_encoding().into_vec() } else { UnixPath::new(s).with_windows_encoding().into_vec() };
             let convc: Result<Vec<u8>, CheckedPathError> = if src_win { WindowsPath::new(s).with_unix_encoding_checked().map(|x| x.into_vec()) } else { UnixPath::new(s).with_windows_encoding_checked().map(|x| x.into_vec()) };
             let cd = comps(dst_win, &conv);
@@ -481,6 +513,7 @@ pub fn c17(ctx: &mut Ctx, tier: &str, seed: u64) {
             let want = spec::names_valid(&cs, win);
             let got = if win { WindowsPath::new(s).is_valid() } else { UnixPath::new(s).is_valid() };
             let rp = format!("valid {} {}", e, hex(s));
+            at(rp.clone());
             ctx.case(!want || cs.len() >= 2, (win, s));
             ctx.tally(&format!("{}:{}", e, if want { "valid" } else { "invalid" }));
             if got != want {
